@@ -92,8 +92,8 @@ pub fn families(rng: &mut Rng, thorough: bool) -> Vec<(String, Vec<u64>, Vec<u64
 fn gcd_like(r: &mut Rec, k: u64) {
     // gcd / lcm need certificates: reuse the numth helpers through their public driver pieces
     let _ = k;
-    let a = r.g.u[0].clone();
-    let b = r.g.u[1].clone();
+    let a = r.g.u[0].roomy();
+    let b = r.g.u[1].roomy();
     let (g, x, y) = hint::ext_gcd(&hint::from_u64s(a.verif_raw()), &hint::from_u64s(b.verif_raw()));
     let (ca, cb) = if g.is_empty() { (vec![], vec![]) } else { (hint::divmod(&hint::from_u64s(a.verif_raw()), &g).0, hint::divmod(&hint::from_u64s(b.verif_raw()), &g).0) };
     let hg = format!(
@@ -125,7 +125,7 @@ pub fn run(r: &mut Rec) {
         }
         let f0 = rg.below(7);
         r.uu("mul", "ref_ref", 0, 1, 2, |x, y| x * y);
-        r.uu("mul", "val_val", 1, 0, 2, |x, y| x.clone() * y.clone());
+        r.uu("mul", "val_val", 1, 0, 2, |x, y| x.roomy() * y.roomy());
         let _ = f0;
         gcd_like(r, k as u64);
         crate::drivers::history::obs_u(r, 0, 1);
@@ -152,7 +152,7 @@ pub fn run(r: &mut Rec) {
             }
             r.ii("mul", "ref_ref", 0, 1, 2, |x, y| x * y);
             r.clone_i(0, 2);
-            r.i_assign("mul", "assign_val", 2, 1, |d, s| *d *= s.clone());
+            r.i_assign("mul", "assign_val", 2, 1, |d, s| *d *= s.roomy());
             crate::drivers::history::obs_i(r, 0, 1);
         }
     }
